@@ -18,6 +18,11 @@ pub struct CrdtSession {
     pub enc: Option<TextEncoding>,
     pub files: BTreeMap<String, (Vec<u8>, Vec<(usize, String)>)>,
     pub tx_snapshots: BTreeMap<String, Vec<u8>>,
+    pub iso_snap: BTreeMap<String, Vec<ChangeHash>>,
+    /// hashes offered to (or made by) each replica so far — for the C05 oracle `crdt.expect`
+    pub offered: BTreeMap<String, std::collections::BTreeSet<String>>,
+    /// two replicas share an actor id (conflicting (actor, seq) pairs possible): C05 oracle off
+    pub shared_actor: bool,
 }
 
 // ---------- canonical text forms (shared with Lean `Spec.show*`) ----------
@@ -264,16 +269,22 @@ fn exec_inner(s: &mut CrdtSession, toks: &[&str], enc: TextEncoding) -> Vec<Stri
             let e = parse_enc(toks[2]);
             s.enc = Some(e);
             let d = AutoCommit::new_with_encoding(e).with_actor(ActorId::from(unhx(toks[3])));
+            if s.replicas.values().any(|x| x.get_actor().to_bytes() == unhx(toks[3]).as_slice()) { s.shared_actor = true; }
             s.replicas.insert(toks[1].to_string(), d);
+            s.offered.insert(toks[1].to_string(), Default::default());
             vec!["ok".into()]
         }
         "crdt.fork" => {
+            if s.replicas.values().any(|x| x.get_actor().to_bytes() == unhx(toks[3]).as_slice()) { s.shared_actor = true; }
             let f = s.replicas.get_mut(toks[1]).unwrap().fork().with_actor(ActorId::from(unhx(toks[3])));
             s.replicas.insert(toks[2].to_string(), f);
+            let o = s.offered.get(toks[1]).cloned().unwrap_or_default();
+            s.offered.insert(toks[2].to_string(), o);
             vec!["ok".into()]
         }
         "crdt.apply" => {
             let cs: Vec<Change> = if toks[2] == "-" { vec![] } else { toks[2].split(',').map(|h| s.changes.get(h).expect("unknown change").clone()).collect() };
+            if toks[2] != "-" { for h in toks[2].split(',') { s.offered.entry(toks[1].to_string()).or_default().insert(h.to_string()); } }
             let d = s.replicas.get_mut(toks[1]).unwrap();
             let before = (show_doc(d, None, enc), d.get_heads(), d.get_missing_deps(&[]), d.clone().save());
             let r = d.apply_changes(cs);
@@ -291,11 +302,59 @@ fn exec_inner(s: &mut CrdtSession, toks: &[&str], enc: TextEncoding) -> Vec<Stri
             }
             res
         }
-        "crdt.local" => {
+        "crdt.loadinc" => {
+            let mut data = vec![];
+            if toks[2] != "-" { for h in toks[2].split(',') { data.extend(s.changes.get(h).expect("unknown change").raw_bytes()); s.offered.entry(toks[1].to_string()).or_default().insert(h.to_string()); } }
             let d = s.replicas.get_mut(toks[1]).unwrap();
-            let last = d.get_last_local_change().map(|c| hex::encode(c.hash().0));
+            let before = (show_doc(d, None, enc), d.get_heads(), d.get_missing_deps(&[]));
+            let r = d.load_incremental(&data);
+            let mut res = vec![format!("{} {}", match &r { Ok(_) => "ok".to_string(), Err(automerge::AutomergeError::DuplicateSeqNumber(q, a)) => format!("err dupseq {} {}", q, show_actor(a)), Err(_) => "err".to_string() }, summary(d))];
+            if r.is_err() {
+                let after = (show_doc(d, None, enc), d.get_heads(), d.get_missing_deps(&[]));
+                if before.0 != after.0 || before.1 != after.1 { res.push("! C06 sig=loadinc-error-changed-state load_incremental returned an error but changed heads or state".to_string()); }
+                else if before.2 != after.2 { res.push(format!("! C06 sig={} load_incremental returned an error but changed the pending queue", if matches!(r, Err(automerge::AutomergeError::DuplicateSeqNumber(..))) { "dupseq-error-prunes-queue" } else { "loadinc-error-changed-queue" })); }
+            }
+            res
+        }
+        // crdt.expect r <offered hashes> : C05 direct oracle, computed from the changes' own deps:
+        // applied = largest dependency-closed subset of what was offered; missing deps = deps of the
+        // held changes that were never offered
+        "crdt.expect" => {
+            if s.shared_actor { return vec!["ok".to_string()]; }
+            let offered: Vec<String> = s.offered.get(toks[1]).map(|x| x.iter().cloned().collect()).unwrap_or_default();
+            let mut applied: std::collections::BTreeSet<String> = Default::default();
+            loop {
+                let mut grew = false;
+                for h in &offered {
+                    if applied.contains(h) { continue; }
+                    let c = s.changes.get(h).expect("unknown change");
+                    if c.deps().iter().all(|d| applied.contains(&hex::encode(d.0))) { applied.insert(h.clone()); grew = true; }
+                }
+                if !grew { break; }
+            }
+            let mut missing: std::collections::BTreeSet<String> = Default::default();
+            for h in &offered {
+                if applied.contains(h) { continue; }
+                for d in s.changes.get(h).unwrap().deps() { let dh = hex::encode(d.0); if !offered.contains(&dh) { missing.insert(dh); } }
+            }
+            let d = s.replicas.get_mut(toks[1]).unwrap();
+            let have: std::collections::BTreeSet<String> = d.get_changes(&[]).iter().map(|c| hex::encode(c.hash().0)).collect();
+            let miss: std::collections::BTreeSet<String> = d.get_missing_deps(&[]).iter().map(|h| hex::encode(h.0)).collect();
+            let mut res = vec!["ok".to_string()];
+            if have != applied {
+                let lost: Vec<&String> = applied.difference(&have).collect();
+                let early: Vec<&String> = have.difference(&applied).collect();
+                res.push(format!("! C05 sig=held-back-mismatch replica {} applied {} changes, expected {} (causally ready among the {} offered); not applied although ready: {:?}; applied although not ready/offered: {:?}", toks[1], have.len(), applied.len(), offered.len(), lost.iter().take(2).collect::<Vec<_>>(), early.iter().take(2).collect::<Vec<_>>()));
+            }
+            if miss != missing { res.push(format!("! C05 sig=missing-deps-mismatch get_missing_deps of replica {} reports {} hashes, expected {}", toks[1], miss.len(), missing.len())); }
+            res
+        }
+        "crdt.local" => {
+            s.offered.entry(toks[1].to_string()).or_default().insert(toks[2].to_string());
+            let d = s.replicas.get_mut(toks[1]).unwrap();
+            let hh = ChangeHash::try_from(unhx(toks[2]).as_slice()).unwrap();
             let mut res = vec![format!("ok {}", summary(d))];
-            if last.as_deref() != Some(toks[2]) { res.push(format!("! C10 replayed local change has hash {:?}, expected {}", last, toks[2])); }
+            if d.get_change_by_hash(&hh).is_none() { res.push(format!("! C10 sig=replay-hash replayed local change {} is not in the document", toks[2])); }
             res
         }
         "crdt.state" => {
@@ -375,6 +434,8 @@ fn exec_inner(s: &mut CrdtSession, toks: &[&str], enc: TextEncoding) -> Vec<Stri
                     if again != bytes { res.push("! C11 sig=resave saving the loaded document gives different bytes".to_string()); }
                     res.insert(0, format!("ok {}", summary(&mut l)));
                     s.replicas.insert(toks[2].to_string(), l.with_actor(actor));
+                    let o = s.offered.get(toks[1]).cloned().unwrap_or_default();
+                    s.offered.insert(toks[2].to_string(), o);
                 }
                 Err(e) => { res.push("err".to_string()); res.push(format!("! C11 sig=load-failed load(save(doc)) failed: {}", e)); }
             }
@@ -487,6 +548,8 @@ fn exec_inner(s: &mut CrdtSession, toks: &[&str], enc: TextEncoding) -> Vec<Stri
                 let actor = d.get_actor().clone();
                 if let Ok(fresh) = AutoCommit::load_with_options(&snap, automerge::LoadOptions::new().text_encoding(enc)) {
                     let mut fresh = fresh.with_actor(actor);
+                    // an isolated replica keeps working at its isolation heads: put the reference in the same mode
+                    if let Some(hs) = s.iso_snap.get(toks[1]) { fresh.isolate(hs); }
                     let mut probe = d.clone();
                     let a = fresh.put(ROOT, "__probe", 1i64).and_then(|_| Ok(fresh.commit_with(automerge::transaction::CommitOptions::default().with_time(0))));
                     let b = probe.put(ROOT, "__probe", 1i64).and_then(|_| Ok(probe.commit_with(automerge::transaction::CommitOptions::default().with_time(0))));
@@ -501,7 +564,9 @@ fn exec_inner(s: &mut CrdtSession, toks: &[&str], enc: TextEncoding) -> Vec<Stri
             s.tx_snapshots.remove(toks[1]);
             let d = s.replicas.get_mut(toks[1]).unwrap();
             let h = d.commit_with(automerge::transaction::CommitOptions::default().with_time(0));
-            vec![match h { Some(_) => "ok".to_string(), None => "none".to_string() }]
+            // an isolated replica continues from its own commit
+            if let (Some(h), true) = (h, s.iso_snap.contains_key(toks[1])) { s.iso_snap.insert(toks[1].to_string(), vec![h]); }
+            match h { Some(h) => vec!["ok".to_string(), format!("#hash {}", hex::encode(h.0))], None => vec!["none".to_string()] }
         }
         // extension engines sharing this session's replicas (each in its own file)
         #[cfg(feature = "e_richtext")]
@@ -586,7 +651,8 @@ pub fn generate(r: &mut Rng, _opts: &BTreeMap<String, String>, sess: &mut Sessio
                 let k = r.range(1, 4.min(all_changes.len() as u64)) as usize;
                 let mut pick: Vec<String> = (0..k).map(|_| all_changes[r.below(all_changes.len() as u64) as usize].clone()).collect();
                 if r.chance(1, 3) { pick.reverse(); }
-                exec_line(sess, &format!("crdt.apply {} {}", who, pick.join(",")), out);
+                let via = if r.chance(1, 3) { out.count("deliver_via_loadinc"); "crdt.loadinc" } else { "crdt.apply" };
+                exec_line(sess, &format!("{} {} {}", via, who, pick.join(",")), out);
                 out.count("deliver_subset");
             }
             3 if all_changes.len() > 0 => {
@@ -601,6 +667,22 @@ pub fn generate(r: &mut Rng, _opts: &BTreeMap<String, String>, sess: &mut Sessio
             }
         }
         if r.chance(1, 3) { observe(sess, out, &names); }
+        if r.chance(1, 2) { exec_line(sess, &format!("crdt.expect {}", who), out); }
+    }
+    // a late joiner: a fresh replica that receives everything one change at a time in random order,
+    // through apply_changes and load_incremental alike (it holds changes back from the first delivery on)
+    if !all_changes.is_empty() && r.chance(1, 2) {
+        let late_actor = hex::encode(r.bytes(3));
+        exec_line(sess, &format!("crdt.new late {} {}", enc, late_actor), out);
+        names.push("late".into());
+        out.count("late_joiner");
+        let mut all = all_changes.clone();
+        for i in (1..all.len()).rev() { let j = r.below(i as u64 + 1) as usize; all.swap(i, j); }
+        for h in all {
+            let via = if r.chance(1, 2) { "crdt.loadinc" } else { "crdt.apply" };
+            exec_line(sess, &format!("{} late {}", via, h), out);
+            if r.chance(1, 2) { exec_line(sess, "crdt.expect late", out); }
+        }
     }
     // final: everybody gets everything, in different orders / batchings -> convergence
     for n in names.clone() {
@@ -712,7 +794,8 @@ pub fn local_tx(r: &mut Rng, sess: &mut Session, out: &mut Out, who: &str, known
     let res = exec_line(sess, &format!("crdt.commit {}", who), out);
     if res[0] == "ok" {
         let d = sess.crdt.replicas.get_mut(&who).unwrap();
-        let c = d.get_last_local_change().unwrap();
+        let hh = ChangeHash::try_from(unhx(res[1].strip_prefix("#hash ").unwrap()).as_slice()).unwrap();
+        let c = d.get_change_by_hash(&hh).unwrap();
         let h = hex::encode(c.hash().0);
         exec_line(sess, &def_line(&c), out);
         exec_line(sess, &format!("crdt.local {} {}", who, h), out);
